@@ -103,7 +103,11 @@ impl Engine {
                         let sit = create_situation(&plan, self, names);
                         if self.check_outcome("create_storage", &sit, &plan.refusals, &res, &r.show())? {
                             self.model.insert(&plan.parent, new_storage(&plan.name));
-                            self.pin_times(names, lo, hi, true, "create_storage")?;
+                            if self.oracles.pin_new_times {
+                                self.force_times(names)?;
+                            } else {
+                                self.pin_times(names, lo, hi, true, "create_storage")?;
+                            }
                         }
                     }
                 }
@@ -152,7 +156,11 @@ impl Engine {
                             for c in to_create.iter() {
                                 let (name, parent) = c.split_last().unwrap();
                                 self.model.insert(parent, new_storage(name));
-                                self.pin_times(c, lo, hi, true, "create_storage_all")?;
+                                if self.oracles.pin_new_times {
+                                    self.force_times(c)?;
+                                } else {
+                                    self.pin_times(c, lo, hi, true, "create_storage_all")?;
+                                }
                             }
                             if to_create.len() > 1 {
                                 self.stats.bump("create_all_multi");
@@ -583,6 +591,24 @@ impl Engine {
                 }
             },
         }
+    }
+
+    /// C18: sets both times of a new storage to a value that depends only on the history.
+    pub fn force_times(&mut self, names: &[String]) -> Result<(), Fail> {
+        let secs = 1_500_000_000u64 + self.op_index as u64 * 86_400 + names.len() as u64;
+        let t = systime_from_spec(false, secs, 0).unwrap();
+        let p = std::path::PathBuf::from(path_string(names));
+        let r1 = guard("set_created_time", || self.lib().set_created_time(&p, t))?;
+        let r2 = guard("set_modified_time", || self.lib().set_modified_time(&p, t))?;
+        if let Err(e) = r1.and(r2) {
+            return Err(Fail::new("mismatch|set_created_time|new_storage|Ok|Err", format!("pinning times of {:?} failed: {}", p, e)));
+        }
+        let ft = filetime_from_unix(false, secs, 0);
+        if let Kind::Storage { created, modified, .. } = &mut self.model.get_mut(names).unwrap().kind {
+            *created = TimeVal::Exact(ft);
+            *modified = TimeVal::Exact(ft);
+        }
+        Ok(())
     }
 
     pub fn model_bytes(&self) -> u64 {
